@@ -99,7 +99,7 @@ class LoopGen:
                 self.tag += 4
                 lb, ub, st = self.bound(ivs)
                 node = {"k": "rot", "iv": self.fresh("i"), "lb": lb, "ub": ub, "step": st, "tag": self.tag, "n": self.fresh("r")[2:]}
-                via = r.choice(["plain", "plain", "if", "cast", "select"])
+                via = r.choice(["plain", "plain", "if", "cast", "select", "keep"])
                 if r.random() < 0.3:
                     node["dimsize"] = True  # the new buffer is as large as the previous one (memref.dim of the loop-carried buffer)
                 if via != "plain":
@@ -248,6 +248,20 @@ def emit(ast) -> str:
                     e(ind + 1, f"%ro{n_} = arith.select %rc{n_}, %rp{n_}, %ra{n_} : {TB}")
                     e(ind + 1, f'"test.op"(%rp{n_}, %rn{n_}) {{vtag = {t_ - 2} : i64}} : ({TB}, {TB}) -> ()')
                     e(ind + 1, f"memref.dealloc %ro{n_} : {TB}")
+                    e(ind + 1, f"scf.yield %rn{n_} : {TB}")
+                elif s.get("via") == "keep":
+                    # keep the better candidate: a candidate buffer is allocated every time; a conditional frees the previous one and
+                    # hands the candidate on, or frees the candidate and hands the previous one on
+                    e(ind + 1, f'%ra{n_} = memref.alloc({rows}, %c2) {{alignment = 64 : i64, vsite = {t_ - 1} : i64}} : {TB}')
+                    e(ind + 1, f'%rc{n_} = arith.cmpi slt, {s["iv"]}, {s["b"]} : index')
+                    e(ind + 1, f'"test.op"(%rp{n_}, %ra{n_}) {{vtag = {t_ - 2} : i64}} : ({TB}, {TB}) -> ()')
+                    e(ind + 1, f"%rn{n_} = scf.if %rc{n_} -> ({TB}) {{")
+                    e(ind + 2, f"memref.dealloc %rp{n_} : {TB}")
+                    e(ind + 2, f"scf.yield %ra{n_} : {TB}")
+                    e(ind + 1, "} else {")
+                    e(ind + 2, f"memref.dealloc %ra{n_} : {TB}")
+                    e(ind + 2, f"scf.yield %rp{n_} : {TB}")
+                    e(ind + 1, "}")
                     e(ind + 1, f"scf.yield %rn{n_} : {TB}")
                 elif s.get("via") == "cast":
                     e(ind + 1, f'%ra{n_} = memref.alloc({rows}, %c2) {{alignment = 64 : i64, vsite = {t_ - 1} : i64}} : {TB}')
